@@ -713,16 +713,24 @@ def filter_features(lines):
             f.add('bloom ' + t[1] + (' k=' + t[3] + ' maxbits=' + t[4] if t[1] == 'new' else ''))
         elif t[0] in ('offload',):
             f.add('offload level ' + t[2])
-        elif t[0] in ('close_active', 'restore_active', 'restart', 'settle', 'force'):
+        elif t[0] in ('close_active', 'restore_active', 'restart', 'settle', 'force', 'offfault'):
             f.add('op:' + t[0])
         elif t[0] == 'd':
             f.add('delete')
     return f
 
 
+def oracle_c10(res, i):
+    cmd = res['script'][i].split()
+    out = res['impl'][i]
+    if cmd and cmd[0] == 'offfault' and not out.startswith('sweep ok'):
+        return f'MISMATCH off-loaded filter with an unreadable index file: {out}'
+    return None
+
+
 PROPS['C10'] = dict(
     gen=lambda rng, tier: gen.filter_scenario(rng, size=tier),
-    p_cmds={'cf', 'cfs', 'gfc', 'c', 'bloom', 'bloom2'},
+    p_cmds={'cf', 'cfs', 'gfc', 'c', 'bloom', 'bloom2', 'offfault'}, py_oracle=oracle_c10,
     oracle_cmds={'cf', 'cfs', 'gfc', 'c', 'states'},
     # cf / cfs / gfc are compared with the model bit for bit (FilterDriver: per-blob filters + container) AND judged by the
     # no-false-negative oracle
@@ -735,7 +743,11 @@ PROPS['C10'] = dict(
           "that computes bit positions with its aHash port; part 2: storage histories (group size 2..9, bloom configs incl. "
           "zero sizes and 8M bits) with close/restore/create/force/delete-in-closed/settle/offload(level 0..2)/restart and "
           "check_filters + check_filter + contains for every key after every step; the oracle flags any 'definitely absent' "
-          "for a key that has a record; non-trivial = an offload or a restore occurs"),
+          "for a key that has a record; non-trivial = an offload or a restore occurs; part 3 (`offfault`, at the end of every "
+          "storage history, in a scratch directory with the session's key length and bloom configuration): 3..8 records, blob "
+          "closed and its index dumped, buffers off-loaded, then the index file is cut to 0/8/40 bytes under the running "
+          "session: check_filters / check_filter must not answer 'absent' and read / contains must not answer NotFound "
+          "without an error for any of the stored keys"),
     assumptions=['bits_count comes from an f64 formula and is taken from the implementation as an input of the model',
                  'storage-level filter answers are judged by the no-false-negative oracle; bit-exact comparison is done on the Bloom type'],
 )
